@@ -90,7 +90,7 @@ AsArr(v) ==
 
 \* ----------------------------------------------------------------- arity
 MaxArgs(name) ==
-  CASE name \in {"compact", "reverse", "first", "last", "uniq", "abs", "ceil", "floor", "size",
+  CASE name \in {"compact", "reverse", "first", "last", "uniq", "abs", "ceil", "floor", "size", "lqx_sum",
                  "escape", "newline_to_br", "strip_html", "strip_newlines", "strip", "lstrip",
                  "rstrip", "url_encode", "url_decode", "json", "inspect", "type"} -> 0
     [] name \in {"default", "concat", "join", "map", "sort", "sort_natural", "modulo", "minus",
@@ -401,6 +401,14 @@ Filter(name, recv, args) ==
   ELSE IF name = "date" THEN DateFilter(recv, args)
   \* lqx_rep: a filter of the embedding program (Engine.RegisterFilter with func(string, int) string, repeating the
   \* text) - known where it is registered; its arguments are converted as for the standard filters
+  \* lqx_sum: a filter of the embedding program declared with a typed slice parameter (func([]int) int): the array is
+  \* converted element by element; an element that is no integer is a conversion error (the object's, located)
+  ELSE IF name = "lqx_sum" THEN
+    (IF recv.k # "arr" \/ args # <<>> THEN FUnspec
+     ELSE IF \A i \in 1..Len(recv.v) : recv.v[i].k = "int" /\ recv.v[i].v \in 0..1000
+          THEN FVal(IntV(LET RECURSIVE Sum(_) Sum(q) == IF q = <<>> THEN 0 ELSE Head(q).v + Sum(Tail(q)) IN Sum(recv.v)))
+     ELSE IF \E i \in 1..Len(recv.v) : recv.v[i].k = "str" /\ DefinitelyNotNumber(recv.v[i].v) THEN FErr
+     ELSE FUnspec)
   ELSE IF name = "lqx_rep" THEN
     (IF recv.k # "str" \/ Len(args) # 1 THEN FUnspec
      ELSE IF args[1].k = "int" /\ args[1].v \in 0..50 THEN FVal(Str(Flatten([i \in 1..args[1].v |-> recv.v])))
